@@ -8,9 +8,9 @@ CONSTANTS MAXIN, GEN
 VARIABLE arrived
 vars == <<svars, arrived>>
 
-PKinds == {"dgram", "bad_udp", "err", "bad_err", "uerr", "req", "bad_req", "rep", "uinfo", "other"}
+PKinds == {"dgram", "bad_udp", "err", "bad_err", "uerr", "req", "bad_req", "rep", "treq", "uinfo", "other"}
 SType(k) == CASE k \in {"err", "bad_err"} -> 1 [] k = "uerr" -> 100 [] k \in {"req", "bad_req"} -> 128
-              [] k = "rep" -> 129 [] k = "uinfo" -> 200 [] OTHER -> 0
+              [] k = "rep" -> 129 [] k = "treq" -> 130 [] k = "uinfo" -> 200 [] OTHER -> 0
 \* bad_* = complete message with a wrong checksum
 Pkt(k, id) == [id |-> id, k |-> k,
                proto |-> IF k \in {"dgram", "bad_udp"} THEN "udp" ELSE IF k = "other" THEN "other" ELSE "scmp",
